@@ -371,7 +371,7 @@ func init() {
 			{Rel: "middleware/cache", Dir: "cache", Entry: "VH_C14_concurrent", Cases: tierCases([]int{1, 3, 5, 7, 11, 15}, rangeInts(0, 16)), Reach: []string{"joined"}, MaxPaths: 200000, ExtraPkgs: cachePkgs, Repeat: 3},
 		},
 		Bounds: map[string]string{
-			"quick":    "indexedHeap: one put / remove(idx) / removeFirst from every valid state with <= 3 slots (any idx permutation, symbolic expirations in heap order, arbitrary stale index cells); sequential: 3 requests over 2 keys x {GET, POST} x {none, no-cache, no-store} x 5 origin statuses x symbolic body (0..2 bytes) with gaps 0..3 s against Expiration 2 s, invalidator, MaxBytes 3, StoreResponseHeaders, memory store / external-store stub; concurrent: 2 requests (same / different key) after an expired entry with MaxBytes eviction, every interleaving at storage / origin / blocking-lock boundaries; two of the sequential cases with a custom KeyGenerator and an ExpirationGenerator (1 s for one key, 3 s for the others)",
+			"quick":    "indexedHeap: one put / remove(idx) / removeFirst from every valid state with <= 3 slots (any idx permutation, symbolic expirations in heap order, arbitrary stale index cells); sequential: 3 requests over 2 keys x {GET, POST} x {none, no-cache, no-store} x 5 origin statuses x symbolic body (0..2 bytes) with gaps 0..3 s against Expiration 2 s, invalidator, MaxBytes 3, StoreResponseHeaders, memory store / external-store stub; concurrent: 2 requests (same / different key) after an expired entry with MaxBytes eviction, every interleaving at storage / origin / blocking-lock boundaries; two of the sequential cases with a custom KeyGenerator and an ExpirationGenerator (1 s for one key, 3 s for the others); all requests of a sequential history are served on one recycled fasthttp.RequestCtx and the origin sets a Content-Encoding",
 			"thorough": "all 16 sequential and 16 concurrent configurations (incl. an invalidator firing for both concurrent requests)",
 		},
 		Assumptions: []string{
